@@ -176,3 +176,7 @@ package providers
 
 //@ func (p *SingleFlightProvider) ValidateSessionState$1() (interface{}, error)
 //@   ensures [C16] runs_wrapped_validate_for_this_session: called(@ValidateSessionState#1) && arg(@ValidateSessionState#1, 0) == p.provider && arg(@ValidateSessionState#1, 1) == s && arg(@ValidateSessionState#1, 2) == allowedGroups && typeis(result.0, "bool") && unbox(result.0, "bool") == @ValidateSessionState#1 && result.1 == nil
+
+// ---- C06 / C16: code redemption is never coalesced ---------------------------------------------------------------
+//@ func (p *SingleFlightProvider) Redeem(redirectURL string, code string) (*sessions.SessionState, error)
+//@   ensures [C06 C16] redeems_this_code_itself: called(@Redeem#1) && arg(@Redeem#1, 0) == old(p.provider) && arg(@Redeem#1, 1) == redirectURL && arg(@Redeem#1, 2) == code && result.0 == @Redeem#1.0 && result.1 == @Redeem#1.1
